@@ -208,9 +208,18 @@ class MibCompiler(object):
         symbolTableMap = {}
         mibsToParse = [x for x in mibnames]
         canonicalMibNames = {}
+        lookedUp = set()
 
         while mibsToParse:
             mibname = mibsToParse.pop(0)
+
+            # a name is looked up once, even if the file found under it
+            # holds a module of another name (which may import the former)
+            if mibname in lookedUp:
+                debug.logger & debug.flagCompiler and debug.logger('MIB %s already looked up' % mibname)
+                continue
+
+            lookedUp.add(mibname)
 
             if mibname in parsedMibs:
                 debug.logger & debug.flagCompiler and debug.logger('MIB %s already parsed' % mibname)
